@@ -47,6 +47,10 @@ def check_c10(ctx):
     docs = gen_docs(ctx, "MC_Doc_ref3s.cfg" if quick else "MC_Doc_ref3.cfg", max_n=cap)
     docs += gen_docs(ctx, "MC_Doc_sim_ext.cfg", simulate=1500 if quick else 30000)
     docs = [dict(text=d["text"], pred=d["pred"]) for d in docs if d["pred"]["valid"]]
+    # ingredients that name another recipe file (a path) are listed like any other, with the quantities of their references
+    for t in ["@./sauces/bolognese{800%g} and @&./sauces/bolognese{200%g} @salt{1%tsp}\n", "@../x/y{1%kg} @b{2} @&../x/y{500%g}\n",
+              "@./a{2} @&./a{3} @./a/b{1%l}\n"]:
+        docs.append(dict(text=t))
     pin2 = os.path.join(ctx.work, "l_in.ndjson")
     pout2 = os.path.join(ctx.work, "l_obs.ndjson")
     core.write_ndjson(pin2, docs)
